@@ -5,6 +5,7 @@ Counter, map, list: refinement to `Spec/Plain`.  Documents: refinement to the pl
 -/
 import Orda.Proofs.PlainRefine
 import Orda.Proofs.DocPlain
+import Orda.Proofs.DocRemoteInv
 namespace Orda.Props.C03
 open Orda
 
@@ -109,5 +110,24 @@ theorem doc_never_panics (r : Replica) (c : Call) (h : DP.DocInv r) (w : String)
 theorem doc_ok_queues_at_most_one (r : Replica) (c : Call) (h : DP.DocInv r) (v : Ret) (hok : (r.call c).2 = .ok v) :
     (r.call c).1.buffer = r.buffer ∨ ∃ o : Op, (r.call c).1.buffer = r.buffer ++ [o] ∧ o.id = r.opId.next :=
   DP.doc_call_ok_queues_one r c h v hok
+
+/-! ### documents shaped by concurrency
+C03 itself is about a single replica without remote operations; the refinement nevertheless holds in every state reached by
+calls AND deliveries (what a Document handle is used on in practice). -/
+
+/-- the document invariant is kept by every applicable remote operation (parent and targets present, fresh identifiers —
+    what causal delivery from well-formed replicas guarantees), winning or losing -/
+theorem doc_invariant_survives_delivery (r : Replica) (d : Doc) (hs : r.state = .doc d) (h : DP.DocInv r) (o : Op)
+    (x : DM.DOp) (hx : DR.toDOp o = some x) (hok : DM.GoodD d [x]) (hera : o.id.era = r.opId.era) (hv : DR.ValuesOK x) :
+    DP.DocInv (r.execRemoteBase o).1 := DR.docInv_remote r d hs h o x hx hok hera hv
+
+/-- in every state of a replica's life (calls and deliveries in any order) a call through a located handle acts as on
+    the plain JSON tree -/
+theorem doc_refines_plain_tree_in_any_reachable_state (cuid : String) (create : Bool) (r : Replica)
+    (h : DR.Life cuid create r) (d : Doc) (hs : r.state = .doc d) (π : List PlainDoc.Seg) (hd : Ts)
+    (hloc : d.locate π Ts.oldest = some hd) (c : Call) (hc : PlainDoc.handleOf c = some hd) (hk : DP.CallKeysND c) :
+    ∃ d', (r.call c).1.state = .doc d' ∧ d'.view.canon = (PlainDoc.step d.view.canon π c).1 ∧
+      PlainDoc.outCanon (r.call c).2 = (PlainDoc.step d.view.canon π c).2 :=
+  DR.life_call_refines cuid create r h d hs π hd hloc c hc hk
 
 end Orda.Props.C03
